@@ -735,6 +735,70 @@ def gen_tables(repo):
     L.append("/-- (class, FLATTEN_SYMBOL, operator applied to the children's filtered data) -/")
     L.append("def binaryClasses : List (String × String × String) := " + lean_list(rows) + "\n")
 
+    # ConditionBinaryOp.__new__ / __init__
+    cbo = find_class(ctree, "ConditionBinaryOp")
+    new = find_method(cbo, "__new__")
+    nb = strip_doc(new.body)
+    ok_new = (
+        len(nb) == 1 and isinstance(nb[0], ast.Return) and isinstance(nb[0].value, ast.BoolOp)
+        and isinstance(nb[0].value.op, ast.Or) and len(nb[0].value.values) == 2
+        and is_call_to(nb[0].value.values[0], "null_condition_binary_check")
+    )
+    if not ok_new:
+        raise ExtractError("ConditionBinaryOp.__new__: not `return null_condition_binary_check(*conditions) or super().__new__(cls)`")
+    init = find_method(cbo, "__init__")
+    ib = strip_doc(init.body)
+    guard = False
+    if ib and isinstance(ib[0], ast.If):
+        t = ib[0].test
+        guard = (
+            isinstance(t, ast.Compare) and len(t.ops) == 1 and isinstance(t.ops[0], ast.IsNot)
+            and is_call_to(t.left, "null_condition_binary_check")
+            and isinstance(t.comparators[0], ast.Constant) and t.comparators[0].value is None
+            and len(ib[0].body) == 1 and isinstance(ib[0].body[0], ast.Return) and ib[0].body[0].value is None
+            and not ib[0].orelse
+        )
+        if not guard:
+            raise ExtractError("ConditionBinaryOp.__init__: unrecognised leading `if`")
+    rest = ib[1:] if guard else ib
+    assigns_children = any(
+        isinstance(n, ast.Assign) and len(n.targets) == 1 and isinstance(n.targets[0], ast.Attribute)
+        and n.targets[0].attr == "children" and isinstance(n.value, ast.Name) and n.value.id == init.args.vararg.arg
+        for n in rest
+    )
+    raises_type_error = any(
+        isinstance(n, ast.Raise) and isinstance(n.exc, ast.Call) and isinstance(n.exc.func, ast.Name)
+        and n.exc.func.id == "TypeError" for n in ast.walk(init)
+    )
+    if not assigns_children:
+        raise ExtractError("ConditionBinaryOp.__init__: `self.children = conditions` not found")
+    L.append("/-- `ConditionBinaryOp.__init__` starts with `if null_condition_binary_check(*conditions) is not None: return` -/")
+    L.append(f"def binopInitGuard : Bool := {'true' if guard else 'false'}")
+    L.append("/-- `ConditionBinaryOp.__init__` raises TypeError when key-like and index-like conditions are mixed -/")
+    L.append(f"def binopMixCheck : Bool := {'true' if raises_type_error else 'false'}")
+    nf = None
+    usrc = open(os.path.join(repo, "valida", "utils.py")).read()
+    for n in ast.parse(usrc).body:
+        if isinstance(n, ast.FunctionDef) and n.name == "null_condition_binary_check":
+            nf = n
+    if nf is None:
+        raise ExtractError("utils.null_condition_binary_check not found")
+    nbody = strip_doc(nf.body)
+    # return cond_1 if cond_2.is_null else (cond_2 if cond_1.is_null else None)
+    def is_null_attr(x, nm):
+        return isinstance(x, ast.Attribute) and x.attr == "is_null" and isinstance(x.value, ast.Name) and x.value.id == nm
+    a1, a2 = [x.arg for x in nf.args.args]
+    r = nbody[0].value if len(nbody) == 1 and isinstance(nbody[0], ast.Return) else None
+    ok = (
+        isinstance(r, ast.IfExp) and is_null_attr(r.test, a2) and isinstance(r.body, ast.Name) and r.body.id == a1
+        and isinstance(r.orelse, ast.IfExp) and is_null_attr(r.orelse.test, a1)
+        and isinstance(r.orelse.body, ast.Name) and r.orelse.body.id == a2
+        and isinstance(r.orelse.orelse, ast.Constant) and r.orelse.orelse.value is None
+    )
+    if not ok:
+        raise ExtractError("utils.null_condition_binary_check: unrecognised body")
+    L.append("")
+
     # datapath.py
     dsrc = open(os.path.join(repo, "valida", "datapath.py")).read()
     dtree = ast.parse(dsrc)
